@@ -149,16 +149,57 @@ def generate(ctx, family, conc=False):
     return progs, n
 
 
+def run_shards(ctx, progs, trace, extra, shards, timeout=1700):
+    """Like lib.run_sharded, but every driver process gets its own range of loopback ports."""
+    from concurrent.futures import ThreadPoolExecutor
+    lines = lib.read_lines(progs)
+    shards = max(1, min(shards, len(lines) // 150 + 1))
+    per = (len(lines) + shards - 1) // shards
+    span = (21000 // shards) & ~1
+    parts = []
+    for i in range(shards):
+        chunk = lines[i * per:(i + 1) * per]
+        if chunk:
+            pp, tp = f"{progs}.s{i}", f"{trace}.s{i}"
+            open(pp, "w").write("\n".join(chunk) + "\n")
+            parts.append((pp, tp, 11000 + i * span))
+
+    def one(pt):
+        return lib.run_driver("drv_ribbit", ["--programs", pt[0], "--out", pt[1], "--port-base", pt[2], "--port-span", span] + list(extra),
+                              timeout=timeout, check=False)
+
+    t = time.time()
+    with ThreadPoolExecutor(max_workers=len(parts)) as ex:
+        infos = list(ex.map(one, parts))
+    merged = {"wall_s": round(time.time() - t, 2), "shards": len(parts)}
+    for inf in infos:
+        if inf["returncode"] != 0:
+            lib.log(inf["stderr_tail"])
+            raise lib.ToolError(f"driver drv_ribbit exited {inf['returncode']}")
+        for k, v in inf.items():
+            if isinstance(v, int) and k != "returncode":
+                merged[k] = merged.get(k, 0) + v
+    with open(trace, "w") as out:
+        for pp, tp, _ in parts:
+            with open(tp) as f:
+                for line in f:
+                    out.write(line)
+            os.remove(tp)
+            os.remove(pp)
+    return merged
+
+
 def execute(ctx, family, progs, n, par=16):
     trace = ctx.path(f"trace_{family}.ndjson")
     big = (1 << 20) if ctx.quick else (8 << 20)
     if family == "flood":
-        d = lib.run_driver("drv_ribbit", ["--programs", progs, "--out", trace, "--par", 2, "--nofile", NOFILE], timeout=1500)
+        d = lib.run_driver("drv_ribbit", ["--programs", progs, "--out", trace, "--par", 2, "--nofile", NOFILE,
+                                          "--port-base", 10600, "--port-span", 200], timeout=1500)
     elif family == "slow":
-        d = lib.run_driver("drv_ribbit", ["--programs", progs, "--out", trace, "--par", 64, "--big", big], timeout=1500)
+        d = lib.run_driver("drv_ribbit", ["--programs", progs, "--out", trace, "--par", 64, "--big", big,
+                                          "--port-base", 10000, "--port-span", 600], timeout=1500)
     else:
-        d = lib.run_sharded(ctx, "drv_ribbit", progs, trace, extra_args=["--par", par, "--big", big],
-                            shards=max(1, lib.NCPU // 4), timeout=1700)
+        d = run_shards(ctx, progs, trace, ["--par", par, "--big", big], shards=max(1, lib.NCPU // 4))
     ctx.stage("run", family=family, programs=d.get("programs"), events=d.get("events"), hangs=d.get("hangs"), wall_s=d["wall_s"])
     if d.get("programs") != n:
         raise lib.ToolError(f"driver executed {d.get('programs')} of {n} programs ({family})")
